@@ -135,6 +135,33 @@ def _is_param(t, name) -> bool:
     return t.op == "param" and t.args[0] == name
 
 
+def _is_param_or_copy(t, name, res=None) -> bool:
+    """the parameter, or a materialised copy of it: tuple(p) / list(p) / tuple(p or ()) -- the same elements in the same order"""
+    t = unsnap(t)
+    if _is_param(t, name):
+        return True
+    if t.op == "ref" and res is not None and res.state is not None:
+        o = res.state.heap.get(t.args[0])
+        muts = [e for e in res.events if e.kind == "mutate" and unsnap(e.d["obj"]) is t]
+        if o is not None and o.kind in ("list", "tuple") and o.base is not None and not muts:
+            b = unsnap(o.base)
+            if _is_param(b, name):
+                return True
+            if b.op == "or" and len(b.args[0]) == 2 and _is_param(b.args[0][0], name):
+                e = unsnap(b.args[0][1])
+                return (is_const(e) and cval(e) in ((), [])) or e.op == "ref"
+        return False
+    bc = builtin_call(t)
+    if bc and bc[0] in ("tuple", "list") and len(bc[1]) == 1 and not bc[2]:
+        a = unsnap(bc[1][0])
+        if _is_param(a, name):
+            return True
+        if a.op == "or" and len(a.args[0]) == 2 and _is_param(a.args[0][0], name):
+            e = unsnap(a.args[0][1])
+            return is_const(e) and cval(e) in ((), []) or (e.op == "ref")
+    return False
+
+
 def _enc_call(res, name):
     """the single <selected encryptor>.encrypt/decrypt(...) event at top level"""
     evs = [e for e in res.events if e.kind == "mcall" and e.d["name"] == name and len(e.stack) == 1]
@@ -409,7 +436,7 @@ def key_flow_rules(prog, chk, pid, hdr=None):
                 recv = mk("sub", get_[0], get_[2][0])
         ok = recv.op == "sub" and unsnap(recv.args[0]).op == "static" and unsnap(recv.args[0]).args[0].endswith("AUTH_BLOCK_CLS_MAP") and any(_se(recv.args[1]) is unsnap(v) for v in tagf.int_views)
         a = u.d["args"]
-        ok = ok and len(a) == 2 and _se(a[0]) is unsnap(valf.result) and _is_param(a[1], "ext_encryptors")
+        ok = ok and len(a) == 2 and _se(a[0]) is unsnap(valf.result) and _is_param_or_copy(a[1], "ext_encryptors", res)
         why = "block class is not selected by the tag read, or unpack does not receive the value read and the caller's decryptors"
         table = ex.statics.get(unsnap(recv.args[0]).args[0]) if ok else None
         if ok:
